@@ -3,7 +3,7 @@ EXTENDS MultiAlg, Sequences
 StoresDef == {"legacy", "cache", "plain"}      \* plain: a generic-class store (md5) on a local directory
 LocalDef == {"legacy", "cache"}
 AlgDef == [s \in StoresDef |-> IF s = "legacy" THEN "md5-dos2unix" ELSE "md5"]
-ContentsDef == {"lf", "lfcr", "crlf", "bin"}   \* lfcr = the CRLF twin of lf; bin = binary data containing CR LF pairs
+ContentsDef == {"lf", "lf2", "lfcr", "crlf", "bin"}   \* lf2 = LF text of the same size as lf; lfcr = the CRLF twin of lf; bin = binary data containing CR LF pairs
 \* md5 and md5-dos2unix agree exactly on content without CRLF pairs in a text file; under md5-dos2unix a CRLF text
 \* file has the md5 of its LF twin
 DigDef == [a \in {"md5", "md5-dos2unix"} |-> [c \in ContentsDef |-> IF a = "md5" THEN "m:" \o c ELSE IF c = "crlf" THEN "d:crlf" ELSE IF c = "lfcr" THEN "m:lf" ELSE "m:" \o c]]
